@@ -74,7 +74,7 @@ CHECKS['C22'] = dict(
    engine='kani', category='other', design_ref='DESIGN.md §9.7 C22',
    technique='contract harnesses on the real export executor (Kani/CBMC, in-crate): exactly one executor step (TaskState::callback, start_task, callback, drop, waitable_register/unregister) per harness from directly constructed pre-states, symbolic event codes',
    text='BOUNDED contract checking, not a proof (level "other"): at most one registered waitable, scripted Rust work, one step per harness over a sampled set of abstract states. Per step: EXIT exactly when no Rust work and no registered waitable remain; WAIT on the task\'s own waitable set while something is pending and not woken; YIELD when woken during polling (after polling the set and delivering what it reports); an event is delivered to its callback exactly once, after the waitable has left every set, with the host\'s code, and the work is polled again; cancellation exits without polling; the state slot is empty while a callback runs, holds the same state afterwards unless EXIT, and the task with its destructors is released exactly once on exit or cancellation with the task installed; CallbackCode encoding for all set ids; register/unregister keep the task map and the host set in step.',
-   note='BOUNDED: <= 1 waitable, two-slot map model kept in a static under the model checker (BTreeMap trusted), one task per harness. Not covered: block_on, spawned work (async-spawn), TaskCancelOnDrop, multi-callback histories beyond the inductive reading of the single steps. Trusted: mock host.')
+   note='BOUNDED: <= 1 waitable, two-slot map model kept in a static under the model checker (BTreeMap trusted), one task per harness. block_on is covered for a ready future and for one wait (two loop iterations); a three-step history runs in the thorough tier. Not covered: spawned work (async-spawn), TaskCancelOnDrop, longer histories beyond the inductive reading of the single steps. Trusted: mock host.')
 
 CHECKS['C05'] = dict(
    engine='kani', category='other', design_ref='DESIGN.md §9.9 C05/C06',
